@@ -60,6 +60,12 @@ var advPaths = []string{ //nolint:gochecknoglobals // adversarial path domain.
 	"//a//f", "/a/", "/nonexistent/x", "x", "/tmp", "/a/l", "/a/lb/g", "/b/k", "/a/./d", "/..", "/a/d/../../b",
 }
 
+// advWinPaths: what a Windows-typed instance is additionally asked about (other volumes, UNC names, mixed separators).
+var advWinPaths = []string{ //nolint:gochecknoglobals // adversarial path domain.
+	`C:\`, `C:\a`, `C:\a\f`, `C:\a\d\x`, `D:\`, `D:\a\b`, `D:`, `C:`, `C:a`, `\\host\share\x`, `\\host`, `\a\f`, `C:/a/f`, `C:\a\..\..\b`,
+	`c:\a\F`, `C:\a\f\`, `C:\nonexistent\x\y`, `Z:\x\y\z`, `\`,
+}
+
 func advOp(t *sim.Tape, fsKind string, uniq string) fsx.Op {
 	kinds := []string{
 		"Mkdir", "MkdirAll", "Remove", "RemoveAll", "Rename", "Link", "Symlink", "OpenFile", "Create", "Open", "WriteFile", "ReadFile", "ReadDir",
@@ -68,7 +74,13 @@ func advOp(t *sim.Tape, fsKind string, uniq string) fsx.Op {
 		"FChmod", "FChown", "FChdir", "FClose", "FReadDir", "FReaddirnames", "SetUMask", "Sub",
 	}
 	o := fsx.Op{K: kinds[t.Int(len(kinds))]}
-	p := func() string { return advPaths[t.Int(len(advPaths))] }
+	p := func() string {
+		if strings.HasSuffix(fsKind, "-win") && t.Chance(500) {
+			return advWinPaths[t.Int(len(advWinPaths))]
+		}
+
+		return advPaths[t.Int(len(advPaths))]
+	}
 	size := func() int64 {
 		return []int64{0, 1, 3, 4, 5, -1, -5, 100, 1 << 20, 70000, 1<<20 + 1}[t.Int(11)]
 	}
@@ -197,6 +209,12 @@ func (p C07) Run(c *sim.Ctx, t *sim.Tape) sim.RunResult {
 	}
 
 	cfg := &concCfg{FS: base, HardLink: t.Chance(500), Symlinks: base == "memfs" && t.Chance(500)}
+
+	if avfs.BuildFeatures()&avfs.FeatSetOSType != 0 && t.Chance(250) {
+		// an instance that emulates Windows (the check is built with avfs_setostype): every call returns there too.
+		cfg.Windows = true
+		kind += "-win"
+	}
 	w := buildWorld(cfg, 1)
 	env := &fsx.Env{VFS: wrapFS(kind, w)}
 	tr := seqTrace{FS: kind}
